@@ -356,12 +356,22 @@ def _fw_default(fw):
     if [unparse(d) for d in fn.decorator_list] != ["property"]:
         raise Unrecognised("FieldWrapper.default is not a property")
     body = clean(fn.body)
+
+    def local_flag(st):
+        """`name = <literal>` on a local other than `default` (book-keeping such as `single_value = True`)"""
+        return (isinstance(st, ast.Assign) and len(st.targets) == 1 and isinstance(st.targets[0], ast.Name)
+                and st.targets[0].id != "default" and isinstance(st.value, ast.Constant))
+
+    # the decision chain is the first `if`; only local flags may precede it
+    while body and local_flag(body[0]):
+        body = body[1:]
     if not body or not isinstance(body[0], ast.If):
-        raise Unrecognised("FieldWrapper.default: first statement")
+        raise Unrecognised("FieldWrapper.default: the decision chain is not the first statement: " + (unparse(body[0])[:80] if body else ""))
     arms, _ = if_chain(body[0])
     test, b = arms[0]
-    if [unparse(s) for s in b] != ["default = self._default"]:
-        raise Unrecognised("FieldWrapper.default: first arm body")
+    rest = [st for st in b if not local_flag(st)]
+    if [unparse(st) for st in rest] != ["default = self._default"]:
+        raise Unrecognised("FieldWrapper.default: first arm body " + " | ".join(unparse(st)[:60] for st in b))
     t = unparse(test)
     if t == "self._default is not None":
         manual = "negb (is_null d)"
